@@ -178,6 +178,12 @@ def run(chk, w):
             src = rules.load_source(asm, i["a"])
             if cv is not None and src and src[0] == "alloca" and src[1] in data_cells:
                 cmps.setdefault(cv & 0xff, []).append(i)
+        elif i.op == "switch":
+            # `switch (data) { case MAGIC: ... case ESCAPE: ... default: ... }` compares the byte with each case constant
+            src = rules.load_source(asm, i["cond"])
+            if src and src[0] == "alloca" and src[1] in data_cells:
+                for cv, cb in i["cases"]:
+                    cmps.setdefault(cv & 0xff, []).append(i)
     if MAGIC in cmps and ESC in cmps:
         chk.ok("C02-ESC", 1, {"framing_bytes_tested": [MAGIC, ESC]})
     else:
@@ -360,6 +366,12 @@ def delim_standalone(chk, w, rid):
             src = rules.load_source(asm, i["a"])
             if cv is not None and src and src[0] == "alloca" and src[1] in data_cells:
                 cmps.setdefault(cv & 0xff, []).append(i)
+        elif i.op == "switch":
+            # `switch (data) { case MAGIC: ... case ESCAPE: ... default: ... }` compares the byte with each case constant
+            src = rules.load_source(asm, i["cond"])
+            if src and src[0] == "alloca" and src[1] in data_cells:
+                for cv, cb in i["cases"]:
+                    cmps.setdefault(cv & 0xff, []).append(i)
     reads = {s.id for s in asm.all_insts() if s.op == "store" and s["ptr"].get("k") == "inst" and s["ptr"]["id"] in data_cells and
              s["val"].get("k") == "inst" and asm.insts[s["val"]["id"]].op == "call"}
     pk_stores = []
